@@ -49,8 +49,10 @@ type FuncContract struct {
 	CheckOverflow bool
 	CheckConv     bool
 	CheckLocks    bool
+	AllocBound    *Clause
 	AssumeCalleePre bool
 	OnSend        []SendClause
+	OnCall        []SendClause
 	Guarded       []GuardClause
 	Wraps         []string
 	Lock          []string
@@ -297,6 +299,18 @@ func parseClause(fc *FuncContract, word, rest string) error {
 		case "locks":
 			fc.CheckLocks = true
 		default:
+			if strings.HasPrefix(strings.TrimSpace(rest), "alloc") {
+				lab, src := labelled(strings.TrimSpace(strings.TrimPrefix(strings.TrimSpace(rest), "alloc")))
+				if lab == "" {
+					lab = "bounded_by_input"
+				}
+				e, err := ParseExpr(src)
+				if err != nil {
+					return err
+				}
+				fc.AllocBound = &Clause{Label: lab, Expr: e, Src: src}
+				return nil
+			}
 			return fmt.Errorf("check %q", rest)
 		}
 	case "guarded":
@@ -319,6 +333,19 @@ func parseClause(fc *FuncContract, word, rest string) error {
 			g.Objs = append(g.Objs, e)
 		}
 		fc.Guarded = append(fc.Guarded, g)
+	case "oncall":
+		// oncall <callee> [label] expr — asserted at every call the function under contract makes directly
+		// to <callee>; the arguments are arg0, arg1, ... (receiver first)
+		tn, r2 := splitWord(rest)
+		lab, src := labelled(r2)
+		if lab == "" {
+			lab = fmt.Sprintf("call%d", len(fc.OnCall)+1)
+		}
+		e, err := ParseExpr(src)
+		if err != nil {
+			return err
+		}
+		fc.OnCall = append(fc.OnCall, SendClause{Type: tn, Clause: Clause{Label: lab, Expr: e, Src: src}})
 	case "onsend":
 		// onsend <ElemType> [label] expr   — asserted at every channel send of that element type; the sent value is `msg`
 		tn, r2 := splitWord(rest)
